@@ -405,6 +405,25 @@ def mode_is(fact, variant, what="publish_mode", variants=("FullFDT", "ObjectsBei
     return t if v == variant else (not t)
 
 
+def origin_text(sl, e):
+    """text of expression e with single-definition locals substituted, followed by the (substituted) plain assignments of the named locals it
+    mentions: a loop iterator is a named local that is assigned once (`iter = into_iter(&self.objects)`) and then only borrowed mutably by
+    next(), which the slicer counts as a further definition - so `expand` alone stops at it"""
+    txt = show(sl.expand(e), 2000)
+    seen_ = set()
+    work_ = [z for z in walk(e) if z[0] == "var"]
+    while work_:
+        v = work_.pop()
+        if v[1] in seen_ or len(seen_) > 6:
+            continue
+        seen_.add(v[1])
+        for (pj, d, _bb) in sl.var_defs().get(v[1], []):
+            if pj == "" and not (d[0] == "call" and any(show(a_) in ("&" + v[1], v[1]) for a_ in d[2])):
+                txt += " " + show(sl.expand(d), 2000)
+                work_.extend(z for z in walk(d) if z[0] == "var")
+    return txt
+
+
 def foreach_sites(prog, func, collection_regex, callee_pred, unconditional=True):
     """Where does `func` apply a call (callee_pred(path) -> bool) to EVERY element of an iteration over a collection whose access path matches
     collection_regex?  Two source idioms are the same statement:
@@ -420,20 +439,7 @@ def foreach_sites(prog, func, collection_regex, callee_pred, unconditional=True)
     rx_ = re.compile(collection_regex)
 
     def over_collection(e):
-        # the iterator expression, with single-definition locals substituted, is built from the collection: `IterMut::next(&into_iter(&self.objects))`
-        txt = show(sl.expand(e), 2000)
-        # a loop iterator is a named local that is assigned once and then only borrowed mutably by next(): follow its plain assignments
-        seen_ = set()
-        work_ = [z for z in walk(e) if z[0] == "var"]
-        while work_:
-            v = work_.pop()
-            if v[1] in seen_ or len(seen_) > 6:
-                continue
-            seen_.add(v[1])
-            for (pj, d, _bb) in sl.var_defs().get(v[1], []):
-                if pj == "" and not (d[0] == "call" and any(show(a_) in ("&" + v[1], v[1]) for a_ in d[2])):
-                    txt += " " + show(sl.expand(d), 2000)
-                    work_.extend(z for z in walk(d) if z[0] == "var")
+        txt = origin_text(sl, e)
         return any(rx_.search(m) for m in re.findall(r"[A-Za-z_][\w~]*(?:\.[\w@]+)*", txt))
 
     # (a) adaptors
